@@ -49,4 +49,51 @@ theorem token_FromSealed_cid_is_of_input (dec : Bytes → GoM T) (canon : Bytes 
     (t : T) (c : C) (h : Gen.token_FromSealed dec canon cidOf data = .ok (t, c)) : cidOf data = .ok c :=
   ((token_FromSealed_ok_iff dec canon cidOf data t c).1 h).2.2
 
+/-- the common shape: `d ← enc t k; i ← cidOf d; return (d, i)` -/
+theorem toSealed_shape {X K : Type} (enc : X → K → GoM Bytes) (cidOf : Bytes → GoM C) (t : X) (k : K) (data : Bytes) (c : C) :
+    (do let d ← enc t k; let i ← cidOf d; pure (d, i) : GoM (Bytes × C)) = .ok (data, c) ↔
+      enc t k = .ok data ∧ cidOf data = .ok c := by
+  cases he : enc t k with
+  | error e => simp [bind, Except.bind, pure, Except.pure]
+  | ok d =>
+    simp only [bind, Except.bind, pure, Except.pure]
+    cases hc : cidOf d with
+    | error e =>
+      constructor
+      · intro h; cases h
+      · rintro ⟨h1, h2⟩
+        cases h1; rw [hc] at h2; cases h2
+    | ok c' =>
+      constructor
+      · intro h
+        injection h with h; injection h with h1 h2
+        subst h1; subst h2
+        exact ⟨rfl, hc⟩
+      · rintro ⟨h1, h2⟩
+        cases h1; rw [hc] at h2
+        injection h2 with h2; subst h2; rfl
+
+/-- `ToSealed` (both token types), regenerated, for every encoder and every CID function: the CID handed out next to the sealed
+bytes is the CID computed from exactly those bytes -/
+theorem Dlg_ToSealed_ok_iff {K : Type} (cidOf : Bytes → GoM C) (enc : Gen.DlgTok D S → K → GoM Bytes) (t : Gen.DlgTok D S) (k : K)
+    (data : Bytes) (c : C) :
+    Gen.Dlg_ToSealed cidOf enc t k = .ok (data, c) ↔ enc t k = .ok data ∧ cidOf data = .ok c := by
+  unfold Gen.Dlg_ToSealed
+  exact toSealed_shape enc cidOf t k data c
+
+theorem Inv_ToSealed_ok_iff {K : Type} (cidOf : Bytes → GoM C) (enc : Gen.InvTok D C A → K → GoM Bytes) (t : Gen.InvTok D C A) (k : K)
+    (data : Bytes) (c : C) :
+    Gen.Inv_ToSealed cidOf enc t k = .ok (data, c) ↔ enc t k = .ok data ∧ cidOf data = .ok c := by
+  unfold Gen.Inv_ToSealed
+  exact toSealed_shape enc cidOf t k data c
+
+/-- sealing and unsealing agree on the identifier: what `ToSealed` hands out, `FromSealed` computes again from the same bytes
+(with the same CID function) — provided the bytes decode and are canonical -/
+theorem seal_unseal_same_cid {K : Type} (cidOf : Bytes → GoM C) (enc : Gen.DlgTok D S → K → GoM Bytes)
+    (dec : Bytes → GoM (Gen.DlgTok D S)) (canon : Bytes → GoM Unit) (t t' : Gen.DlgTok D S) (k : K) (data : Bytes) (c c' : C)
+    (hs : Gen.Dlg_ToSealed cidOf enc t k = .ok (data, c)) (hu : Gen.Dlg_FromSealed dec canon cidOf data = .ok (t', c')) : c' = c := by
+  have h1 := ((Dlg_ToSealed_ok_iff cidOf enc t k data c).1 hs).2
+  have h2 := ((Dlg_FromSealed_ok_iff dec canon cidOf data t' c').1 hu).2.2
+  rw [h1] at h2; exact (Except.ok.inj h2).symm
+
 end Ucan.Tie
